@@ -95,7 +95,14 @@ func (s *NotifyFollowReader) Read(buf []byte) (int, error) {
 			}
 		case <-s.eventDelete:
 			if s.ReOpen {
-				s.closeFile()
+				// The signal can be stale (the re-created file is already open), and the
+				// file can already be back with its own signal consumed before this one
+				if !s.isFileAtPath() {
+					s.closeFile()
+					if f, err := os.Open(s.filename); err == nil {
+						s.f = f
+					}
+				}
 			} else {
 				s.Close()
 				return 0, io.EOF
@@ -135,6 +142,19 @@ func (s *NotifyFollowReader) startWatcher() (*fsnotify.Watcher, error) {
 	}()
 
 	return watcher, nil
+}
+
+// isFileAtPath checks whether the open file is still the one the filename refers to
+func (s *NotifyFollowReader) isFileAtPath() bool {
+	if s.f == nil {
+		return false
+	}
+	open, err := s.f.Stat()
+	if err != nil {
+		return false
+	}
+	atPath, err := os.Stat(s.filename)
+	return err == nil && os.SameFile(open, atPath)
 }
 
 func (s *NotifyFollowReader) closeFile() {
